@@ -18,6 +18,9 @@ _chars = list("abXY z09_-") + ['"', "\\", "/", "\n", "\t", "\r", "\b", "\x1f", "
 text = st.text(alphabet=st.sampled_from(_chars), max_size=6)
 plain_text = st.text(alphabet=st.sampled_from(list("abcxyzXYZ019_ ")), min_size=1, max_size=5)
 some_text = st.one_of(plain_text, plain_text, text)
+# string values (and keys of nested objects) may also hold U+0000, written \u0000 in JSON; names of parameters themselves do not
+nul_text = st.text(alphabet=st.sampled_from(["\x00", "a", "b", "\n", "\u00e9"]), min_size=1, max_size=4)
+value_text = st.one_of(plain_text, plain_text, text, text, nul_text)
 
 _ints = st.one_of(
     st.integers(-9, 9),
@@ -32,10 +35,10 @@ _floats = st.one_of(
                      2.0 ** 53, 4294967296.5]),
     st.floats(allow_nan=False, allow_infinity=False),
 )
-json_scalars = st.one_of(st.none(), st.booleans(), _ints, _ints, _floats, _floats, some_text, some_text)
+json_scalars = st.one_of(st.none(), st.booleans(), _ints, _ints, _floats, _floats, value_text, value_text)
 wild_json = st.recursive(json_scalars,
                            lambda inner: st.one_of(st.lists(inner, max_size=3),
-                                                   st.dictionaries(some_text, inner, max_size=3)),
+                                                   st.dictionaries(value_text, inner, max_size=3)),
                            max_leaves=5)
 # values without doubles and without integers beyond int32 (the region Form.tojson is known to mishandle), so that most
 # cases exercise everything else
@@ -67,6 +70,8 @@ def json_kind_tags(v, acc=None):
     elif isinstance(v, float):
         acc.add("float_integral" if v == int(v) and abs(v) < 2 ** 63 else "float_fractional")
     elif isinstance(v, str):
+        if "\x00" in v:
+            acc.add("str_nul")
         acc.add("str_plain" if all(c.isascii() and (c.isalnum() or c in " _") for c in v) else ("str_nonascii" if any(ord(c) > 127 for c in v) else "str_escapes"))
     elif isinstance(v, list):
         acc.add("array")
